@@ -1,6 +1,7 @@
 import RedisVerif.Model.AntiEntropy
 import RedisVerif.Lemmas.AntiEntropy
 import RedisVerif.Lemmas.AEBytes
+import RedisVerif.Lemmas.Ring
 import RedisVerif.Props.C07
 
 /-!
@@ -908,6 +909,139 @@ def idealSip : List Nat → Nat := fun l => enc l + 1
 theorem sipIdeal_idealSip : SipIdeal idealSip :=
   ⟨fun a b h => enc_inj a b (by unfold idealSip at h; omega), fun a => by unfold idealSip; omega⟩
 
+/-- the two sides must be configured with the SAME `merkle_tree_depth`: digests of different depth
+    never compare equal for non-trivial equal states (the root folds a different bucket list) — the
+    exchange still merges (the size-mismatch branch of `divergent_buckets` reports every non-empty
+    extra bucket; exercised by the three-manager sessions), but "in sync" is never reached -/
+theorem digest_depth_mismatch_counterexample :
+    differsFrom (fromState idealH true canonicalStream 0 [1, 2] exA) (fromState idealH true canonicalStream 1 [1, 2] exA) = true
+    ∧ divergentBuckets (fromState idealH true canonicalStream 0 [1, 2] exA) (fromState idealH true canonicalStream 1 [1, 2] exA) = [0, 1] := by
+  decide
+
+/-! ## the protocol as a state machine: late, duplicated and concurrent messages
+
+`AE.Mgr` models `AntiEntropyManager` with its bookkeeping; digests, requests and responses are
+values that may be processed at any later time.  What the protocol guarantees then: -/
+
+theorem response_sublist_iter (ord : RespOrder) (H : Hasher) (vs : ValueStream) (depth limit : Nat) (π : List Nat)
+    (s : NMap RV) (req : Option (List Nat)) : (responseKeysWith ord H vs depth limit π s req).Sublist (iter π s) := by
+  cases req with
+  | none => exact List.take_sublist _ _
+  | some bs =>
+    cases ord <;> simp only [responseKeysWith]
+    · exact (List.take_sublist _ _).trans List.filter_sublist
+    · exact List.filter_sublist.trans (List.take_sublist _ _)
+
+/-- a response never answers a key twice -/
+theorem response_keys_nodup (ord : RespOrder) (H : Hasher) (vs : ValueStream) (depth limit : Nat) (π : List Nat)
+    (s : NMap RV) (req : Option (List Nat)) (hs : NMap.WF s) (hπ : ValidOrder π s) :
+    ((responseKeysWith ord H vs depth limit π s req).map (·.1)).Nodup :=
+  List.Nodup.sublist ((response_sublist_iter ord H vs depth limit π s req).map _) (iter_keys_nodup hs hπ)
+
+/-- **C18 (a late answer is safe)**: the response to ANY request (built from digests of
+    arbitrarily old states, for a bucket list or the full state) consists of entries of the
+    responder's CURRENT state, and merging it into ANY requester state `r₁` — the state at merge
+    time, not the one the digest was computed from — leaves `merge(r₁[k], answered[k])` on every
+    answered key and every other key untouched: a write made between digest and transfer is
+    never rolled back or skipped. -/
+theorem stale_pull_merges (H : Hasher) (m : Mgr) (req : Request) (πp : List Nat) (p r₁ : NMap RV)
+    (hp : NMap.WF p) (hπ : ValidOrder πp p) (k : Nat) :
+    (∀ q ∈ (m.handleSyncRequest H req πp p).2.deltas, NMap.get p q.1 = some q.2)
+    ∧ NMap.get (applyDeltas r₁ (m.handleSyncRequest H req πp p).2.deltas) k
+        = (match (m.handleSyncRequest H req πp p).2.deltas.lookup k with
+           | some v => some (mergeInto (NMap.get r₁ k) v)
+           | none => NMap.get r₁ k) := by
+  have hdl : (m.handleSyncRequest H req πp p).2.deltas
+      = responseKeysWith currentRespOrder H currentStream (effectiveDepth currentDepthBound m.depth)
+          (effectiveLimit currentLimitAtLeastOne m.limit) πp p req.buckets := rfl
+  rw [hdl]
+  constructor
+  · intro q hq
+    exact mem_iter ((response_sublist_iter _ _ _ _ _ _ _ _).subset hq)
+  · exact get_applyDeltas _ r₁ k (response_keys_nodup _ _ _ _ _ _ _ _ hp hπ)
+
+/-- merging `v` a second time changes nothing -/
+def Absorbs (r : NMap RV) (ds : List (Nat × RV)) : Prop :=
+  ∀ q ∈ ds, RV.merge (mergeInto (NMap.get r q.1) q.2) q.2 = mergeInto (NMap.get r q.1) q.2
+
+instance (r : NMap RV) (ds : List (Nat × RV)) : Decidable (Absorbs r ds) := by unfold Absorbs; infer_instance
+
+/-- … which is the case for well-formed values of one kind (C07: idempotent, associative within a kind) -/
+theorem absorbs_of_samekind (r : NMap RV) (ds : List (Nat × RV))
+    (h : ∀ q ∈ ds, q.2.WF ∧ ∀ u, NMap.get r q.1 = some u → u.WF ∧ u.crdt.kind = q.2.crdt.kind) : Absorbs r ds := by
+  intro q hq
+  obtain ⟨hw, hu⟩ := h q hq
+  unfold mergeInto
+  cases hg : NMap.get r q.1 with
+  | none => exact C07.rv_merge_idem q.2 hw
+  | some u =>
+    obtain ⟨huw, hk⟩ := hu u hg
+    simp only []
+    rw [← C07.rv_merge_assoc_partial u q.2 q.2 huw hw hw ⟨hk, rfl⟩, C07.rv_merge_idem q.2 hw]
+
+/-- **C18 (a duplicated answer is harmless), partial**: applying the same response twice equals
+    applying it once, provided re-merging an answered value is absorbed (`Absorbs`; true for
+    well-formed same-kind values, `absorbs_of_samekind`; cross-kind pairs are C07's known
+    non-associativity) -/
+theorem duplicate_response_idempotent_partial (r : NMap RV) (ds : List (Nat × RV)) (hr : NMap.WF r)
+    (hn : (ds.map (·.1)).Nodup) (ha : Absorbs r ds) :
+    applyDeltas (applyDeltas r ds) ds = applyDeltas r ds := by
+  apply NMap.ext (wf_applyDeltas _ (wf_applyDeltas _ hr)) (wf_applyDeltas _ hr)
+  intro k
+  rw [get_applyDeltas ds _ k hn, get_applyDeltas ds r k hn]
+  cases hl : ds.lookup k with
+  | none => rfl
+  | some v =>
+    simp only []
+    have hmem : (k, v) ∈ ds := by
+      have := List.lookup_eq_some_iff.mp hl
+      obtain ⟨l1, l2, rfl, _⟩ := this
+      simp
+    have := ha (k, v) hmem
+    simp only [mergeInto] at this ⊢
+    cases hg : NMap.get r k with
+    | none => rw [hg] at this; simp only [] at this ⊢; rw [this]
+    | some u => rw [hg] at this; simp only [] at this ⊢; rw [this]
+
+/-- **C18 (the verdict of `process_peer_digest`)**: with an ideal byte hash, two managers of the
+    same configured depth: the peer is reported (and marked) divergent iff the two states differ —
+    whatever generations / replica ids the digests carry, whatever the iteration orders -/
+theorem mgr_verdict_iff_states_differ (sip : List Nat → Nat) (hsip : SipIdeal sip) (m mp : Mgr) (hd : m.depth = mp.depth)
+    (π π' : List Nat) (s t : NMap RV) (hs : NMap.WF s) (ht : NMap.WF t)
+    (vs : ValuesOK HB.keyStr s) (vt : ValuesOK HB.keyStr t) (hπ : ValidOrder π s) (hπ' : ValidOrder π' t) :
+    let ours := m.generateDigest (sipHasher sip HB.keyStr) π s
+    let theirs := mp.generateDigest (sipHasher sip HB.keyStr) π' t
+    ((m.processPeerDigest theirs ours).2.isSome = true ↔ s ≠ t)
+    ∧ (mp.rid ∈ (m.processPeerDigest theirs ours).1.divergentPeers ↔ s ≠ t) := by
+  intro ours theirs
+  have key := digest_iff_state_eq_current sip hsip (effectiveDepth currentDepthBound m.depth) π π' s t hs ht vs vt hπ hπ'
+  have hdf : differsFrom ours.d theirs.d = false ↔ s = t := by
+    show differsFrom (digest _ _ π s) (digest _ (effectiveDepth currentDepthBound mp.depth) π' t) = false ↔ s = t
+    rw [← hd]; exact key
+  unfold Mgr.processPeerDigest
+  cases hdd : differsFrom ours.d theirs.d with
+  | true =>
+    have hne : s ≠ t := fun h => by rw [hdf.mpr h] at hdd; cases hdd
+    simp only [if_true, Option.isSome_some, true_iff]
+    exact ⟨hne, ⟨fun _ => hne, fun _ => Ring.nset_mem_insert.mpr (Or.inl rfl)⟩⟩
+  | false =>
+    have heq : s = t := hdf.mp hdd
+    simp only [Bool.false_eq_true, if_false, Option.isSome_none]
+    refine ⟨⟨fun h => absurd h (by decide), fun h => absurd heq h⟩, ⟨fun h => ?_, fun h => absurd heq h⟩⟩
+    rw [List.mem_filter] at h
+    have := h.2
+    simp at this
+    exact absurd rfl this
+
+/-- **C18 (`should_sync` after a request)**: once a request to `peer` was created at time `now`,
+    a sync is due again exactly from `now + sync_interval_ms` on (no clock underflow for `t ≥ now`) -/
+theorem should_sync_after_request (m : Mgr) (peer : Nat) (ours : TDigest) (bs : Option (List Nat)) (now t : Nat)
+    (ht : now ≤ t) :
+    (m.createSyncRequest peer ours bs now).1.shouldSync peer t = if t - now ≥ m.interval then .yes else .no := by
+  unfold Mgr.createSyncRequest Mgr.shouldSync
+  simp only [NMap.get_insert, if_true, dueAt]
+  rw [if_neg (by omega)]
+
 /-! ## non-vacuity -/
 
 -- the hypotheses of the theorems above are satisfiable by non-trivial values
@@ -928,6 +1062,12 @@ def exBytes : NMap RV :=
 example : NMap.WF exBytes ∧ ValuesOK HB.keyStr exBytes ∧ ValidOrder [HB.code [107, 51], HB.code [107], HB.code [107, 50]] exBytes
     ∧ SipIdeal idealSip := by
   refine ⟨by decide, by decide, by decide, sipIdeal_idealSip⟩
+
+-- a duplicated answer that is absorbed (same kind), applied to a state that already changed
+example : Absorbs stA [(2, exY')] ∧ ((([(2, exY')] : List (Nat × RV)).map (·.1)).Nodup)
+    ∧ applyDeltas (applyDeltas stA [(2, exY')]) [(2, exY')] = applyDeltas stA [(2, exY')]
+    ∧ applyDeltas stA [(2, exY')] = stB := by
+  decide
 
 -- a sync with limit ≥ population: key 2 diverges, both sides end with the merge
 example :
